@@ -111,6 +111,7 @@ func plan(tier string, seed int64) []driver.Case {
 			P: map[string]string{"kind": "conc", "entry": e.Name, "callers": fmt.Sprint(1 + rng.Intn(8)), "yield": fmt.Sprint(rng.Intn(3)), "seed": fmt.Sprint(rng.Int63()), "concurrent": "1"}})
 	}
 	cases = append(cases, joinedCases()...)
+	cases = append(cases, doubleTerminalCases()...)
 	// subjects' subscriptions
 	for _, kind := range []string{"publish", "behavior", "replay", "async", "unicast"} {
 		for j := 0; j <= maxPrefix; j++ {
@@ -1069,6 +1070,8 @@ func runCase(c driver.Case) driver.Result {
 		return runJoinedProducer(c)
 	case "observer-panics-in-terminal":
 		return runObserverPanicsInTerminal(c)
+	case "double-terminal":
+		return runDoubleTerminal(c)
 	}
 	return runCut(c)
 }
@@ -1077,7 +1080,7 @@ func main() {
 	driver.Main(driver.Property{
 		ID:        "C06",
 		Level:     "exploration",
-		Rule:      "every catalogue entry (and random chains) over puppet sources: after each prefix of the input, Unsubscribe is called from the harness, from another goroutine while a callback is in progress (recorder gate), and from inside the Next / Error / Complete callback; then further notifications are emitted at every input. All harness calls and recorder callbacks are stamped by one logical clock. Oracle: no delivery whose emission began after Unsubscribe returned (attributed by the emission tag in the ctx, or — tag lost — any delivery on a synchronous pipeline); IsClosed() true at once; Wait returns on a closed subscription (hang = all goroutines blocked, not a deadline), repeated Unsubscribe harmless; when the stream ends by itself a Wait started earlier returns only after the terminal callback finished; Collect == values seen by a Tap just upstream, returned after the terminal; 1-8 concurrent Unsubscribe/Wait callers against an emitting asynchronous source; subjects' and creation operators' subscriptions. Non-trivial: clock comparison performed on ≥1 event or call. Also: the goroutine delivering the terminal notification is parked at the hook point subscriber.terminal.marked (status flipped, terminal callback not yet run) at every nesting level, with free-running, synchronous and 'held' sources (Subscribe returns while the worker is parked): Collect still returns the delivered values and the stream's error, a Wait does not return before the observer's terminal callback ran; sources whose teardown panics: Wait / Collect / a waiting Wait after Unsubscribe still return.",
+		Rule:      "every catalogue entry (and random chains) over puppet sources: after each prefix of the input, Unsubscribe is called from the harness, from another goroutine while a callback is in progress (recorder gate), and from inside the Next / Error / Complete callback; then further notifications are emitted at every input. All harness calls and recorder callbacks are stamped by one logical clock. Oracle: no delivery whose emission began after Unsubscribe returned (attributed by the emission tag in the ctx, or — tag lost — any delivery on a synchronous pipeline); IsClosed() true at once; Wait returns on a closed subscription (hang = all goroutines blocked, not a deadline), repeated Unsubscribe harmless; when the stream ends by itself a Wait started earlier returns only after the terminal callback finished; Collect == values seen by a Tap just upstream, returned after the terminal; 1-8 concurrent Unsubscribe/Wait callers against an emitting asynchronous source; subjects' and creation operators' subscriptions. Non-trivial: clock comparison performed on ≥1 event or call. Also: the goroutine delivering the terminal notification is parked at the hook point subscriber.terminal.marked (status flipped, terminal callback not yet run) at every nesting level, with free-running, synchronous and 'held' sources (Subscribe returns while the worker is parked): Collect still returns the delivered values and the stream's error, a Wait does not return before the observer's terminal callback ran; sources whose teardown panics: Wait / Collect / a waiting Wait after Unsubscribe still return. double-terminal/*: the observer dwells in its terminal callback while a second goroutine hands the pipeline another terminal (protocol-breaking producers on NewObservable / NewSafeObservable with all four Complete/Error pairs, and the second source of every multi-source operator failing while the first source's error is being delivered): a Wait started earlier returns only after the running callback has returned (clock comparison).",
 		Assume:    []string{"a callback already in progress when Unsubscribe is called may finish", "operators that wait inside Subscribe have no subscription to cut before their sources end (C14)"},
 		Plan:      plan,
 		Run:       runCase,
